@@ -395,7 +395,8 @@ class Signal(object):
             The number of points over which values are averaged
         """
 
-        mot = self.values
+        mot = np.array(self.values, dtype=float)
+        self._values = np.array(self.values, dtype=float)
 
         for i in range(len(mot)):
             if i < width / 2:
